@@ -83,7 +83,7 @@ Inductive event :=
 Inductive pc :=
 | PStart                                   (* thread function not entered yet *)
 | PIdle                                    (* between two calls *)
-| ALock (p : pool) (n : Z)                 (* repaired variant: about to lock the mutex *)
+| ALock (p : pool) (n : Z)                 (* repaired variant: about to lock the mutex (site 99) *)
 | ALoadPool (p : pool) (n : Z)             (* loop head: about to load the pool counter *)
 | ATot (p : pool) (n cur : Z) (k : nat) (snap : counters)   (* total_used(): about to load counter k; k = 0 is site 100 *)
 | ALim (p : pool) (n cur : Z) (snap : counters)             (* about to load total_limit *)
@@ -151,7 +151,7 @@ Definition tstep (lk : bool) (t : nat) (c : counters) (l : Z) (lock : option nat
   | ALim p n cur snap => Some (c, lock, mkT pr (AChk p n cur snap l) lg)
   | AChk p n cur snap l1 =>
       if (U64 <=? cur + n) || (U64 <=? total snap + n) then die lk c lock lg
-      else if l1 <=? total snap + n then
+      else if l1 <? total snap + n then
         Some (c, unlock lk lock, mkT pr PIdle (EvAlloc p n (sat_sub l1 (total snap)) 0 :: lg))
       else if negb (pool_eqb p PShared) && (reserved p <? cur + n) then
         Some (c, lock, mkT pr (ASLim p n cur snap) lg)
@@ -215,6 +215,7 @@ Definition finished (th : thr) : bool :=
   match tpc th, prog th with PIdle, [] => true | _, _ => false end.
 Definition site_code (th : thr) : Z :=
   match tpc th with
+  | ALock _ _ => 99          (* repaired variant only: parked in front of the mutex *)
   | ATot _ _ _ O _ => 100
   | AChk _ _ _ _ _ => 101
   | ACas _ _ _ _ => 102
